@@ -251,157 +251,8 @@ func runC02Rest(c *Ctx, q *qbAnchors, funcs []*ssa.Function, lc *LockClass) {
 		}
 	}
 
-	// ---------- R6 cond token protocol
-	c.Rule("R6", "PAIR", "cond token protocol: in Signal/Broadcast every waiting-- is paired with one token send on the channel (and nothing is sent when waiting==0); a cancelled waiter consumes a token with a blocking receive iff waiting==0 and otherwise decrements waiting; waiting++ precedes the unlock", 5)
-	var condFns []*ssa.Function
-	for _, fn := range funcs {
-		if fn.Parent() == nil && recvNamedOfFn(fn) == q.cond {
-			condFns = append(condFns, fn)
-		}
-	}
-	chField := ""
-	{
-		st := q.cond.Underlying().(*types.Struct)
-		for i := 0; i < st.NumFields(); i++ {
-			if _, ok := st.Field(i).Type().Underlying().(*types.Chan); ok {
-				chField = st.Field(i).Name()
-			}
-		}
-	}
-	for _, fn := range condFns {
-		var decs, incs []*ssa.Store
-		for _, s := range fieldStores(fn, q.cond, "waiting") {
-			if isIncrementOf(s, q.cond, "waiting", -1) {
-				decs = append(decs, s)
-			} else if isIncrementOf(s, q.cond, "waiting", 1) {
-				incs = append(incs, s)
-			} else {
-				c.Undecided("cond.waiting store of unknown shape in "+fnName(fn), p.Pos(s.Pos()), "neither ++ nor --")
-			}
-		}
-		var sends []ssa.Instruction
-		var recvs []ssa.Instruction
-		var sel *ssa.Select
-		allInstrs(fn, func(in ssa.Instruction) {
-			switch x := in.(type) {
-			case *ssa.Send:
-				if isFieldAccess(x.Chan, q.cond, chField) {
-					sends = append(sends, in)
-				}
-			case *ssa.UnOp:
-				if x.Op == token.ARROW && isFieldAccess(x.X, q.cond, chField) {
-					recvs = append(recvs, in)
-				}
-			case *ssa.Select:
-				sel = x
-			}
-		})
-		isWait := len(incs) > 0
-		if !isWait {
-			// Signal / Broadcast: each dec paired with a send on every path; sends only with dec
-			if len(decs) == 0 && len(sends) == 0 {
-				continue
-			}
-			sendSet := map[ssa.Instruction]bool{}
-			for _, s := range sends {
-				sendSet[s] = true
-			}
-			for _, d := range decs {
-				// a send must follow before return or before the next dec... accept either order within one iteration:
-				paired := false
-				for _, s := range sends {
-					if s.Block() == d.Block() || instrDominates(d, s) || instrDominates(s, d) {
-						// same guarded region: guards identical
-						if sameGuardSet(d.Block(), s.Block()) || loopPair(d, s) {
-							paired = true
-						}
-					}
-				}
-				c.Check(paired, "waiting-- paired with a token send in "+fnName(fn), p.Pos(d.Pos()), "decrement and send occur together", "waiting is decremented without handing a token to the waiter (or vice versa): lost wake-up")
-			}
-			for _, s := range sends {
-				guarded := false
-				for _, g := range guardsOf(s.Block()) {
-					op, x, y, ok := cmpOf(g)
-					if !ok {
-						continue
-					}
-					k, isC := constInt(y)
-					if isC && k == 0 && len(sliceLoadsField(x, q.cond, "waiting")) > 0 && (op == token.NEQ || op == token.GTR) {
-						guarded = true
-					}
-				}
-				c.Check(guarded && len(decs) > 0, "token send only when a waiter exists in "+fnName(fn), p.Pos(s.Pos()), "guarded by waiting != 0 / > 0", "a token is sent although nobody waits: the next waiter is released without space (or the sender blocks)")
-			}
-			continue
-		}
-		// Wait
-		// waiting++ before the unlock
-		var unlock ssa.CallInstruction
-		for _, ci := range calls(fn, func(ci ssa.CallInstruction) bool {
-			return ci.Common().IsInvoke() && ci.Common().Method.Name() == "Unlock" && typeIs(ci.Common().Value.Type(), "sync", "Locker")
-		}) {
-			unlock = ci
-		}
-		if unlock == nil {
-			c.Bad("cond.Wait releases the lock", p.Pos(fn.Pos()), "no Unlock in Wait")
-		} else {
-			for _, s := range incs {
-				c.Check(instrDominates(s, unlock), "cond.Wait registers as waiting before releasing the lock", p.Pos(s.Pos()), "waiting++ dominates Unlock", "waiting++ happens after the lock is released: a Signal in between is lost")
-			}
-		}
-		if sel == nil {
-			c.Bad("cond.Wait select", p.Pos(fn.Pos()), "no select over ctx.Done and the token channel")
-		} else {
-			tokIdx := -1
-			for i, st := range sel.States {
-				if st.Dir == types.RecvOnly && isFieldAccess(st.Chan, q.cond, chField) {
-					tokIdx = i
-				}
-			}
-			c.Check(tokIdx >= 0 && sel.Blocking, "cond.Wait blocks on token or context", p.Pos(sel.Pos()), "blocking select with a token case", "the wait select has no token case or is non-blocking")
-		}
-		// cancel branch: recv guarded by waiting==0; dec guarded by waiting!=0
-		for _, r := range recvs {
-			guarded := false
-			for _, g := range guardsOf(r.Block()) {
-				op, x, y, ok := cmpOf(g)
-				if !ok {
-					continue
-				}
-				if k, isC := constInt(y); isC && k == 0 && op == token.EQL && len(sliceLoadsField(x, q.cond, "waiting")) > 0 {
-					guarded = true
-				}
-			}
-			c.Check(guarded, "cancelled waiter consumes a token only when waiting==0", p.Pos(r.Pos()), "blocking receive guarded by waiting==0", "a cancelled waiter takes a token although another waiter is still registered (steals its wake-up)")
-		}
-		for _, d := range decs {
-			guarded := false
-			for _, g := range guardsOf(d.Block()) {
-				op, x, y, ok := cmpOf(g)
-				if !ok {
-					continue
-				}
-				if k, isC := constInt(y); isC && k == 0 && (op == token.NEQ || op == token.GTR) && len(sliceLoadsField(x, q.cond, "waiting")) > 0 {
-					guarded = true
-				}
-			}
-			c.Check(guarded, "cancelled waiter deregisters only when waiting!=0", p.Pos(d.Pos()), "waiting-- guarded by waiting != 0", "waiting-- on the cancel path is not guarded by waiting != 0 (e.g. decided by a non-blocking receive): a signalled token can be left behind or stolen")
-		}
-		if len(recvs) == 0 {
-			c.Bad("cancelled waiter consumes a pending token", p.Pos(fn.Pos()), "the cancel path never consumes a token that was already sent to this waiter: the next producer is released without space")
-		}
-		// selects other than the main one must not touch the token channel non-blockingly
-		allInstrs(fn, func(in ssa.Instruction) {
-			if s, ok := in.(*ssa.Select); ok && s != sel {
-				for _, st := range s.States {
-					if isFieldAccess(st.Chan, q.cond, chField) {
-						c.Bad("extra select on the token channel in "+fnName(fn), p.Pos(s.Pos()), "a second select receives from the token channel (non-blocking drain can steal another waiter's token)")
-					}
-				}
-			}
-		})
-	}
+	// ---------- R6 cond waiter-set protocol
+	runC02CondProtocol(c, q, funcs)
 
 	// ---------- R7 pooled done objects
 	c.Rule("R7", "WHO+ORD", "a pooled per-item done object is put back only by its last user: by the producer only after it received the result from the object's channel, by the completion only when nobody waits for the result", 2)
